@@ -446,7 +446,7 @@ func Replay(s Schedule) (Obs, error) {
 		}
 	}
 	for i := 1; i <= n; i++ {
-		if waitParked(fmt.Sprintf("g%d", i), 2*time.Second) != "start" {
+		if waitParked(fmt.Sprintf("g%d", i), 15*time.Second) != "start" {
 			return o, fmt.Errorf("goroutine %d did not start", i)
 		}
 	}
@@ -474,7 +474,7 @@ steps:
 			// a closer spawned by Reset/Close parks at "ps:closer" once the entry's preparation is over;
 			// released, it calls Close, which waits for the calls in flight
 			who := fmt.Sprintf("c%d", -st.G)
-			if waitParked(who, 2*time.Second) == "" {
+			if waitParked(who, 15*time.Second) == "" {
 				drift("step %d: closer of entry %d did not arrive", idx+1, -st.G)
 				break steps
 			}
@@ -524,7 +524,7 @@ steps:
 			}
 			g.release(who)
 			// wait until the goroutine parks again or finishes
-			deadline := time.Now().Add(2 * time.Second)
+			deadline := time.Now().Add(15 * time.Second)
 			if lateClosed {
 				deadline = time.Now().Add(20 * time.Millisecond)
 			}
@@ -562,7 +562,7 @@ steps:
 	for i := 0; i < n; i++ {
 		select {
 		case <-done[i]:
-		case <-time.After(5 * time.Second):
+		case <-time.After(20 * time.Second):
 			o.Deadlock = true
 		}
 	}
